@@ -6,12 +6,16 @@ R-C06-1  CRC gating in both decoders: (i) the record-wanted state is entered
          the data CRC was found good (Boolean facts, unit propagation);
          (iii) every pass through the record-wanted branch leaves the decoder
          header-wanted again (the held ID is consumed exactly once)
+R-C06-2  every decision on a CRC register read tests the whole register for
+         zero (no mask, shift, narrowing or non-zero comparand in between)
 R-C06-3  in both read_all_sectors functions, decoded sectors are appended to
          the result only on the success edge of check_track_is_supported
 R-C06-4  both flux adapters select the sector they return by comparing its
          address (directly, or in the helper that finds it) - sibling rule
-R-C06-5  in the FM decoder the data mark is accepted only within a bounded
+R-C06-5  in the FM and MFM decoders the data mark is accepted only within a bounded
          distance of the ID field that was just verified
+R-C06-6  check_track_is_supported establishes head, cylinder and data-size
+         equality for every sector (must-facts at the end of each iteration)
 """
 from ..runner import RuleResult
 from ..facts import AnalysisBroken
@@ -353,6 +357,175 @@ def rule_address_lookup(prog, fixture=False):
     return r
 
 
+# ---------------------------------------------------------------- R-C06-2
+DECISION_OPS = {"==", "!=", "&&", "||"}
+
+
+def _crc_value_uses(prog, fn, node, seen, out, origin):
+    """Classify how the value computed by `node` (a CRC register read) is used.
+    out gets (function, node, ok, text)."""
+    cur = node
+    while True:
+        p = fn.parent(cur)
+        if p is None:
+            return
+        k = p.get("k")
+        if k in ("ImplicitCastExpr", "CStyleCastExpr", "CXXStaticCastExpr", "CXXFunctionalCastExpr", "ParenExpr",
+                 "ExprWithCleanups", "ConstantExpr", "MaterializeTemporaryExpr", "CXXConstructExpr"):
+            w = p.get("w")
+            if w is not None and 1 < w < 16:
+                out.append((fn, p, False, "the CRC register read at %s is narrowed to %d bits before it is tested" % (origin, w)))
+                return
+            if p.get("ck") == "IntegralToBoolean" or w == 1:
+                out.append((fn, p, True, "whole register tested for zero"))
+                return
+            cur = p
+            continue
+        break
+    if k == "ReturnStmt":
+        if fn.uid in seen:
+            return
+        seen.add(fn.uid)
+        n_callers = 0
+        for g in prog.functions.values():
+            for c in g.walk():
+                if c.get("k") in ("CallExpr", "CXXMemberCallExpr") and c.get("fn") == fn.key and \
+                        fn in prog.call_targets(g, c):
+                    n_callers += 1
+                    _crc_value_uses(prog, g, c, seen, out, origin)
+        return
+    if k == "VarDecl":
+        did = p["d"]
+        for u in fn.walk():
+            if u.get("k") == "DeclRefExpr" and u.get("d") == did:
+                _crc_value_uses(prog, fn, u, seen, out, origin)
+        return
+    if k in ("IfStmt", "WhileStmt", "ConditionalOperator", "DoStmt", "ForStmt"):
+        out.append((fn, p, True, "whole register tested for zero"))
+        return
+    if k == "UnaryOperator" and p.get("op") == "!":
+        out.append((fn, p, True, "whole register tested for zero"))
+        return
+    if k == "BinaryOperator" and p.get("op") in ("==", "!="):
+        other = p["c"][1] if p["c"][0] is cur or strip(p["c"][0]) is strip(cur) else p["c"][0]
+        if folded(other) == 0:
+            out.append((fn, p, True, "whole register compared with zero"))
+        else:
+            out.append((fn, p, False, "the CRC register read at %s is compared with %s, not with zero" % (origin, show(other))))
+        return
+    if k == "BinaryOperator" and p.get("op") in ("&&", "||"):
+        out.append((fn, p, True, "whole register tested for zero"))
+        return
+    if k == "CXXOperatorCallExpr" and p.get("op") == "<<":
+        return  # printed in a diagnostic
+    if k in ("CallExpr", "CXXMemberCallExpr"):
+        return  # passed on (e.g. to a printing helper): not a decision
+    out.append((fn, p, False, "the CRC register read at %s passes through `%s` before it is tested: a residue that is "
+                "non-zero only in the discarded bits is accepted as a good CRC" % (origin, show(p)[:60])))
+
+
+def rule_crc_whole_register(prog, fixture=False):
+    r = RuleResult("R-C06-2", "every decision taken on a CRC register (CRC16Base::get()) tests the whole register "
+                   "for zero: no mask, shift, narrowing cast or non-zero comparand between the read and the test",
+                   floor=0 if fixture else 4)
+    for fn in prog.functions.values():
+        for n in fn.walk():
+            if n.get("k") != "CXXMemberCallExpr":
+                continue
+            callee = strip(n["c"][0])
+            if not callee or callee.get("n") != "get" or "CRC" not in notpl(n.get("q") or "").upper():
+                continue
+            origin = fn.loc(n)
+            uses = []
+            _crc_value_uses(prog, fn, n, set(), uses, origin)
+            for i, (f, node, ok, text) in enumerate(uses):
+                key = "%s::%s::crc-read@%s#%d" % (f.relfile(), f.qn, fn.qn.split("::")[-1], i + 1)
+                r.add(key, f.loc(node), ok, text)
+    for fn in prog.functions.values():
+        if fn.name == "get" and "CRC" in (fn.cls or "").upper():
+            rets = [n for n in fn.walk() if n.get("k") == "ReturnStmt" and n.get("c")]
+            for n in rets:
+                e = strip_all(n["c"][0])
+                ok = e is not None and e.get("k") == "MemberExpr" and e.get("dk") == "Field"
+                r.add("%s::%s::return" % (fn.relfile(), fn.qn), fn.loc(n), ok,
+                      "returns the register itself" if ok else
+                      "get() returns `%s`, not the whole CRC register" % show(e))
+    return r
+
+
+# ---------------------------------------------------------------- R-C06-6
+def _mentions_member(e, names):
+    return any(x.get("k") == "MemberExpr" and x.get("n") in names for x in walk(e))
+
+
+def _is_size_of_data(e):
+    for x in walk(e):
+        if x.get("k") == "CXXMemberCallExpr":
+            cal = strip(x["c"][0])
+            if cal and cal.get("n") == "size" and cal.get("c") and _mentions_member(cal["c"][0], {"data"}):
+                return True
+    return False
+
+
+TRACK_CHECKS = [
+    ("head", lambda e: _mentions_member(e, {"head"}), "the head number of every sector equals the side being read"),
+    ("cylinder", lambda e: _mentions_member(e, {"cylinder"}), "the cylinder number of every sector equals the track being read"),
+    ("data-size", _is_size_of_data, "the data size of every sector equals the supported sector size"),
+]
+
+
+def rule_track_checks_unconditional(prog, fixture=False):
+    r = RuleResult("R-C06-6", "check_track_is_supported validates head, cylinder and data size of every sector: at "
+                   "the end of each iteration of its per-sector loop the three equalities are must-facts (no "
+                   "check is skipped under a side condition)", floor=0 if fixture else 3)
+    for fn in prog.fnby("check_track_is_supported", required=not fixture):
+        loops = [n for n in fn.walk() if n.get("k") == "CXXForRangeStmt" and "inc" in n.get("parts", {})]
+        loops = [n for n in loops if "Sector" in ((([x for x in walk(n["c"][n["parts"]["loopvar"]])
+                                                     if x.get("k") == "VarDecl"] or [{}])[0]).get("t") or "")]
+        if len(loops) != 1:
+            r.undecided.append("%s: cannot identify the per-sector loop (%d candidates)" % (fn.qn, len(loops)))
+            continue
+        loop = loops[0]
+        g = Guards(fn)
+        incpos = g.position(loop["c"][loop["parts"]["inc"]])
+        if incpos is None:
+            r.undecided.append("%s: loop increment not found in the CFG" % fn.qn)
+            continue
+        inc = incpos[0]
+        preds = [p for p in fn.cfg.pred[inc] if g.out_facts(p) is not None]
+        if not preds:
+            r.undecided.append("%s: loop body never completes an iteration" % fn.qn)
+            continue
+        for name, pred, text in TRACK_CHECKS:
+            key = "%s::%s::%s" % (fn.relfile(), fn.qn, name)
+            ok = True
+            for p in preds:
+                fs = g.edge(p, inc) or set()
+                have = False
+                for k in fs:
+                    if k[0] == "C" and k[2] == "==":
+                        f = g.rep[k]
+                        if pred(f[1]) or pred(f[3]):
+                            have = True
+                if not have:
+                    ok = False
+            if not ok:
+                # is the comparison there at all?
+                anywhere = any(n.get("k") == "BinaryOperator" and n.get("op") in ("==", "!=") and
+                               (pred(n["c"][0]) or pred(n["c"][1])) for n in fn.walk())
+                if not anywhere and any(pred(c) for n in fn.walk() if is_call(n) and prog.call_targets(fn, n)
+                                        for t in prog.call_targets(fn, n) for c in [t.body]):
+                    r.undecided.append("%s: the %s check is made in a helper this rule does not follow" % (fn.qn, name))
+                    continue
+                msg = ("%s is not established on every path through the per-sector loop: the comparison is %s, so a "
+                       "track with a misplaced or wrongly sized sector is accepted" %
+                       (text, "skipped under a side condition" if anywhere else "missing"))
+                r.add(key, fn.loc(loop), False, msg)
+            else:
+                r.add(key, fn.loc(loop), True, text)
+    return r
+
+
 def _helper_compares_address(f):
     for n in f.walk():
         if n.get("k") == "IfStmt":
@@ -363,10 +536,11 @@ def _helper_compares_address(f):
 
 
 def rule_fm_mark_distance(prog, fixture=False):
-    r = RuleResult("R-C06-5", "in the FM decoder the data field is read only when the data address mark lies "
+    r = RuleResult("R-C06-5", "in the FM and MFM decoders the data field is read only when the data address mark lies "
                    "within a bounded distance of the ID field just verified (a position saved when the ID was "
-                   "accepted is compared with the current position)", floor=0 if fixture else 1)
-    for fn in prog.fn("Track::decode_fm_track", required=not fixture):
+                   "accepted is compared with the current position)", floor=0 if fixture else 2)
+    for fn in prog.fn("Track::decode_fm_track", required=not fixture) + \
+            prog.fn("Track::decode_mfm_track", required=not fixture):
         sv = _state_var(fn)
         did = sv["d"]
         g = Guards(fn)
@@ -400,12 +574,14 @@ def rule_fm_mark_distance(prog, fixture=False):
 
 def run(ctx):
     prog = ctx.prog("dfs", "N")
-    return [rule_crc_gating(prog), rule_track_validation(prog), rule_address_lookup(prog),
-            rule_fm_mark_distance(prog)]
+    return [rule_crc_gating(prog), rule_crc_whole_register(prog), rule_track_validation(prog),
+            rule_address_lookup(prog), rule_fm_mark_distance(prog), rule_track_checks_unconditional(prog)]
 
 
 SELFTESTS = [
     (rule_crc_gating, ["c06_bad.cc"], ["c06_good.cc"], "push"),
     (rule_crc_gating, ["c06_bad.cc"], ["c06_good.cc"], "enter-record-state"),
     (rule_address_lookup, ["c06_bad.cc"], ["c06_good.cc"], "read_block"),
+    (rule_crc_whole_register, ["c06_crc_bad.cc"], ["c06_crc_good.cc"], "check_block"),
+    (rule_crc_whole_register, ["c06_crc_bad.cc"], ["c06_crc_good.cc"], "low_crc"),
 ]
